@@ -1,7 +1,12 @@
 /-
   C01 — the fragment of the core language for which the refinement theorem
-  `run_refines_eval_partial` (Props/C01.lean) is proved (stage A of DESIGN §6 C01, "binder core").
+  `run_refines_eval_partial` (Props/C01.lean) is proved (stages A and B of DESIGN §6 C01).
   A decidable predicate, so that the check can *measure* how many generated programs lie inside.
+
+  `pe` ("prelude has `!empty`"): `[]` and `try f` (without `catch`) are compiled to a call of the
+  prelude definition `def !empty: {}[];`; they are inside the fragment exactly when the program is
+  compiled together with that definition (`pe = true`, theorem `run_refines_eval_partial`); with
+  the empty prelude (`pe = false`, theorem `run_refines_eval_noprelude_partial`) they are outside.
 -/
 import JaqVerif.Core.Ast
 
@@ -12,38 +17,79 @@ def Bop.inFragment : Bop → Bool
   | .comma | .alt | .or | .and | .math _ | .cmp _ => true
   | _ => false
 
+/-- the name of the prelude definition that `[]` and `try f` are compiled to; the lexer cannot
+produce it as an identifier (`!` is not an identifier character) -/
+def emptyName : String := "!empty"
+
 mutual
-  /-- inside: `.`, number and plain string literals, `[f]`, `-f`, `l | r`, `l as $x | r`,
-  `,` `//` `and` `or` math comparison, `label $x | f`, `break $x`, `try f catch g`,
-  `if c then t [else e] end`, `def … ; …` (any number of definitions and parameters),
-  calls (any arity), `$x`, `reduce`/`foreach` with a variable pattern.
-  outside: `..`, interpolated / formatted strings, `[]`, `try f` without `catch`, objects,
-  destructuring patterns, paths, `elif` chains, updates, names containing `::`. -/
-  def inFragment : Term → Bool
+  /-- inside: `.`, `..`, number literals, strings with interpolation (no `@format`), `[f]`, `[]`*,
+  `{…}` (all entry forms), `-f`, `l | r`, `l as PATTERN | r` (variable, array and object patterns,
+  computed keys, nested), `,` `//` `and` `or` math comparison, `label $x | f`, `break $x`,
+  `try f catch g`, `try f`*, `if … then … (elif … then …)* [else …] end`,
+  `def … ; …` (any number of definitions and parameters), calls (any arity), `$x`,
+  `reduce`/`foreach` with any pattern, paths `f[x]`, `f[x:y]`, `f[]`, `.a`, with and without `?`.
+  (* = only with the prelude definition `!empty`, `pe = true`.)
+  outside: `@format` strings, updates (`|=`, `=`, `+=`, `//=`), names containing `::`,
+  the (unwritable) name `!empty` as a user-level identifier. -/
+  def inFragment (pe : Bool) : Term → Bool
     | .id => true
+    | .recurse => true
     | .num _ => true
-    | .str none [.lit _] => true
-    | .arr (some f) => inFragment f
-    | .neg f => inFragment f
-    | .pipe l none r => inFragment l && inFragment r
-    | .pipe l (some (.var _)) r => inFragment l && inFragment r
-    | .binop l op r => op.inFragment && inFragment l && inFragment r
-    | .label _ f => inFragment f
+    | .str none parts => inFragmentParts pe parts
+    | .str (some _) _ => false
+    | .arr none => pe
+    | .arr (some f) => inFragment pe f
+    | .obj kvs => inFragmentEntries pe kvs
+    | .neg f => inFragment pe f
+    | .pipe l none r => inFragment pe l && inFragment pe r
+    | .pipe l (some p) r => inFragment pe l && inFragmentPat pe p && inFragment pe r
+    | .binop l op r => op.inFragment && inFragment pe l && inFragment pe r
+    | .label _ f => inFragment pe f
     | .brk _ => true
-    | .fold _ xs (.var _) args => inFragment xs && inFragmentList args
-    | .tryCatch f (some c) => inFragment f && inFragment c
-    | .ite [(c, t)] none => inFragment c && inFragment t
-    | .ite [(c, t)] (some e) => inFragment c && inFragment t && inFragment e
-    | .defs ds f => inFragmentDefs ds && inFragment f
-    | .call name args => !isQualified name && inFragmentList args
+    | .fold _ xs p args => inFragment pe xs && inFragmentPat pe p && inFragmentList pe args
+    | .tryCatch f none => pe && inFragment pe f
+    | .tryCatch f (some c) => inFragment pe f && inFragment pe c
+    | .ite its none => inFragmentIts pe its
+    | .ite its (some e) => inFragmentIts pe its && inFragment pe e
+    | .defs ds f => inFragmentDefs pe ds && inFragment pe f
+    | .call name args => !isQualified name && name != emptyName && inFragmentList pe args
     | .var _ => true
-    | _ => false
-  def inFragmentList : List Term → Bool
+    | .path f parts => inFragment pe f && inFragmentPath pe parts
+  def inFragmentList (pe : Bool) : List Term → Bool
     | [] => true
-    | t :: ts => inFragment t && inFragmentList ts
-  def inFragmentDefs : List Def → Bool
+    | t :: ts => inFragment pe t && inFragmentList pe ts
+  def inFragmentDefs (pe : Bool) : List Def → Bool
     | [] => true
-    | .mk _ _ body :: ds => inFragment body && inFragmentDefs ds
+    | .mk name params body :: ds =>
+      name != emptyName && params.all (· != emptyName) && inFragment pe body && inFragmentDefs pe ds
+  def inFragmentParts (pe : Bool) : List StrPart → Bool
+    | [] => true
+    | .lit _ :: ps => inFragmentParts pe ps
+    | .interp f :: ps => inFragment pe f && inFragmentParts pe ps
+  def inFragmentEntries (pe : Bool) : List (Term × Option Term) → Bool
+    | [] => true
+    | (k, none) :: es => inFragment pe k && inFragmentEntries pe es
+    | (k, some w) :: es => inFragment pe k && inFragment pe w && inFragmentEntries pe es
+  def inFragmentIts (pe : Bool) : List (Term × Term) → Bool
+    | [] => true
+    | (c, t) :: its => inFragment pe c && inFragment pe t && inFragmentIts pe its
+  def inFragmentPat (pe : Bool) : Pattern → Bool
+    | .var _ => true
+    | .arr ps => inFragmentPats pe ps
+    | .obj kps => inFragmentKPats pe kps
+  def inFragmentPats (pe : Bool) : List Pattern → Bool
+    | [] => true
+    | p :: ps => inFragmentPat pe p && inFragmentPats pe ps
+  def inFragmentKPats (pe : Bool) : List (Term × Pattern) → Bool
+    | [] => true
+    | (k, p) :: kps => inFragment pe k && inFragmentPat pe p && inFragmentKPats pe kps
+  def inFragmentPath (pe : Bool) : List (Part × Opt) → Bool
+    | [] => true
+    | (.index i, _) :: ps => inFragment pe i && inFragmentPath pe ps
+    | (.range none none, _) :: ps => inFragmentPath pe ps
+    | (.range (some a) none, _) :: ps => inFragment pe a && inFragmentPath pe ps
+    | (.range none (some b), _) :: ps => inFragment pe b && inFragmentPath pe ps
+    | (.range (some a) (some b), _) :: ps => inFragment pe a && inFragment pe b && inFragmentPath pe ps
 end
 
 end Jaq.Core
